@@ -1,6 +1,254 @@
-/- Line-protocol driver for engine `vacuum` — not built yet (stub). -/
+/-
+  Line-protocol driver for engine `vacuum` (C13).
+
+  Case (1):  vac <setup…> | <op> ; <op> ; …
+     setup and the session / statement ops are those of engine `hist` (see Driver/Hist.lean), plus
+       vac        Database::vacuum                                   → `vac`
+       vacchk     SELECT * of every table; VACUUM; the same SELECTs  → `vac(same)` | `PROPFAIL-vac-changed(<before>-><after>)`
+       reopen     every open session dropped, handle dropped, Database::open → `reopen`
+     an operation of a session that was open when a VACUUM ran ("killed") must fail: `nosession` (whatever the error);
+     if it answers: `PROPFAIL-killed-session-answered(<token>)`.
+     Output: one token per op, ` | `, `<table>=[rows]` for every table (final committed state).
+  Case (2):  cycles rows=<n> cycles=<c> reopen=<k> how=auto|sess|batch|rbk
+     n rows, then c times (UPDATE every row; VACUUM), reopen after every k-th cycle (0 = never)
+     → `bounded rows=<n> wrong=<rows whose value is not c> probe=ok` | `PROPFAIL growth …`
+  Flags: the field names of `Db.Defects` and of `Db.VDefects`.
+-/
+import AxVerif.Model.Vacuum
+import AxVerif.Driver.Hist
+namespace AxVerif.Db.VDrv
+open AxVerif AxVerif.Db AxVerif.Db.Drv
+
+inductive COp where
+  | h (o : Op)
+  | vac
+  | vacchk
+  | reopen
+  /-- DROP TABLE tmpzz, autocommit (`none`) or in a session -/
+  | droptmp (s : Option String)
+
+def parseCOp (ws : List String) : Option COp :=
+  match ws with
+  | ["vac"] => some .vac
+  | ["vacchk"] => some .vacchk
+  | ["reopen"] => some .reopen
+  | ["db", "droptmp"] => some (.droptmp none)
+  | [s, "droptmp"] => if sessName s then some (.droptmp (some s)) else none
+  | _ => (parseOp ws).map COp.h
+
+/-- (setup, side table `tmpzz` requested, ops) -/
+def parseCase (line : String) : Option (Setup × Bool × List COp) :=
+  let line := line.trimAscii.toString
+  if !line.startsWith "vac " then none
+  else match (line.drop 4).toString.splitOn "|" with
+    | [setup, ops] =>
+      let ws := words setup
+      match parseSetup (ws.filter (· != "tmp")) {} with
+      | none => none
+      | some st =>
+        let ops := ops.trimAscii.toString
+        if ops.isEmpty then some (st, ws.contains "tmp", [])
+        else (allSome ((ops.splitOn " ; ").map (fun o => parseCOp (words o)))).map (fun os => (st, ws.contains "tmp", os))
+    | _ => none
+
+/-- the side table `tmpzz (k BIGINT)` with rows 1, 2 lives outside the model's static catalog; all the driver tracks is
+    whether it has been dropped by a committed transaction, and which open sessions have an uncommitted DROP -/
+structure Tmp where
+  exists_ : Bool := false
+  dropped : Bool := false
+  pending : List String := []
+
+def parseV (flags : List String) : VDefects :=
+  { vacuumRemovesUncommittedDelete := flags.contains "vacuumRemovesUncommittedDelete",
+    vacuumDropsHorizonVersion := flags.contains "vacuumDropsHorizonVersion",
+    cleanupForgetsAborted := flags.contains "cleanupForgetsAborted",
+    vacuumLeavesSessionsOpen := flags.contains "vacuumLeavesSessionsOpen" }
+
+def vNames : List String :=
+  ["vacuumRemovesUncommittedDelete", "vacuumDropsHorizonVersion", "cleanupForgetsAborted", "vacuumLeavesSessionsOpen"]
+
+def isFailure : Out → Bool
+  | .stmt (.err _) => true
+  | .noSession => true
+  | .refused _ => true
+  | .batchErr _ => true
+  | _ => false
+
+def showV : VOut → String
+  | .out o => showOut true o
+  | .dead o => if isFailure o then "nosession" else "PROPFAIL-killed-session-answered(" ++ showOut true o ++ ")"
+
+/-- SELECT * of every table by autocommit statements -/
+def selectAll (D : Defects) (V : VDefects) (tabs : List TableSchema) (tmp : Tmp) (τ : VState) : VState × List String :=
+  let r := tabs.foldl (fun (acc : VState × List String) t =>
+    let r := vstep D V acc.1 (.op (.auto (.sel t.name none)))
+    (r.1, acc.2 ++ [t.name ++ "=" ++ showV r.2])) (τ, [])
+  if !tmp.exists_ then r
+  else if tmp.dropped then
+    -- a failing autocommit statement: its transaction is aborted
+    let q := vstep D V r.1 (.op (.auto (.sel "tmpzz" none)))
+    (q.1, r.2 ++ ["tmpzz=" ++ showV q.2])
+  else ((vstep D V r.1 (.op .tick)).1, r.2 ++ ["tmpzz=[1;2]"])
+
+def runOps (D : Defects) (V : VDefects) (tabs : List TableSchema) :
+    VState → Tmp → List COp → List String → VState × Tmp × List String
+  | τ, tmp, [], acc => (τ, tmp, acc.reverse)
+  | τ, tmp, .h o :: os, acc =>
+    let r := vstep D V τ (.op o)
+    let tok := showV r.2
+    let tmp' : Tmp := match o with
+      | .commit s => if tmp.pending.contains s then { tmp with pending := tmp.pending.filter (· != s), dropped := tmp.dropped || tok == "ok" } else tmp
+      | .rollback s | .drop s | .begin s => { tmp with pending := tmp.pending.filter (· != s) }
+      | _ => tmp
+    runOps D V tabs r.1 tmp' os (tok :: acc)
+  | τ, tmp, .vac :: os, acc => runOps D V tabs (vstep D V τ .vacuum).1 { tmp with pending := [] } os ("vac" :: acc)
+  | τ, tmp, .reopen :: os, acc => runOps D V tabs (vstep D V τ .reopen).1 { tmp with pending := [] } os ("reopen" :: acc)
+  | τ, tmp, .vacchk :: os, acc =>
+    let (τ1, before) := selectAll D V tabs tmp τ
+    let τ2 := (vstep D V τ1 .vacuum).1
+    let (τ3, after) := selectAll D V tabs tmp τ2
+    let tok := if before == after then "vac(same)"
+      else "PROPFAIL-vac-changed(" ++ joinWith "," before ++ "->" ++ joinWith "," after ++ ")"
+    runOps D V tabs τ3 { tmp with pending := [] } os (tok :: acc)
+  | τ, tmp, .droptmp none :: os, acc =>
+    if tmp.exists_ && !tmp.dropped then
+      runOps D V tabs (vstep D V τ (.op .tick)).1 { tmp with dropped := true } os ("ddl" :: acc)
+    else
+      let r := vstep D V τ (.op (.auto (.sel "tmpzz" none)))
+      runOps D V tabs r.1 tmp os (showV r.2 :: acc)
+  | τ, tmp, .droptmp (some s) :: os, acc =>
+    let τ' := (vstep D V τ (.op .nop)).1
+    match lookup s τ.db.sessions with
+    | Option.none => runOps D V tabs τ' tmp os ("nosession" :: acc)
+    | some _ =>
+      if tmp.exists_ && !tmp.dropped then
+        if τ.killed.contains s then runOps D V tabs τ' tmp os ("PROPFAIL-killed-session-answered(ddl)" :: acc)
+        else runOps D V tabs τ' { tmp with pending := s :: tmp.pending } os ("ddl" :: acc)
+      else runOps D V tabs τ' tmp os ((if τ.killed.contains s then "nosession" else "notfound") :: acc)
+
+def runSetup (D : Defects) (V : VDefects) (st : Setup) (tmp : Bool) : Option VState :=
+  (setupOps st ++ (if tmp then [Op.tick, Op.tick] else [])).foldl (fun (acc : Option VState) o =>
+    match acc with
+    | none => none
+    | some τ =>
+      let r := vstep D V τ (.op o)
+      match r.2 with
+      | .out x => if isFailure x then none else some r.1
+      | .dead _ => none) (some (VState.init st.tables))
+
+def runHist (D : Defects) (V : VDefects) (st : Setup) (tmp : Bool) (ops : List COp) : String :=
+  match runSetup D V st tmp with
+  | none => "bad-setup"
+  | some τ0 =>
+    let (τ1, tmp1, toks) := runOps D V st.tables τ0 { exists_ := tmp } ops []
+    let (_, fin) := selectAll D V st.tables tmp1 τ1
+    s!"{joinWith " " toks} | {joinWith " " fin}"
+
+/-! ### growth family -/
+
+structure Cycles where
+  rows : Nat
+  cycles : Nat
+  reopen : Nat
+  how : String
+
+def parseNum (s : String) : Option Nat :=
+  match parseInt s with
+  | some (.ofNat n) => if n ≤ 100000 then some n else none
+  | _ => none
+
+def parseCycles (line : String) : Option Cycles :=
+  match words line with
+  | ["cycles", a, b, c, d] =>
+    if a.startsWith "rows=" && b.startsWith "cycles=" && c.startsWith "reopen=" && d.startsWith "how=" then
+      match parseNum (a.drop 5).toString, parseNum (b.drop 7).toString, parseNum (c.drop 7).toString with
+      | some n, some cy, some k =>
+        let how := (d.drop 4).toString
+        if (how = "auto" || how = "sess" || how = "batch" || how = "rbk") && 1 ≤ n && n ≤ 2000 && 1 ≤ cy && cy ≤ 400 then
+          some ⟨n, cy, k, how⟩
+        else none
+      | _, _, _ => none
+    else none
+  | _ => none
+
+def catCycles : Catalog := [{ name := "t", cols := [⟨"k", .big, false, false⟩, ⟨"v", .int, false, false⟩] }]
+
+/-- rows k..hi as INSERT batches of 50 -/
+def insertBatches (n : Nat) : List Op :=
+  let chunks := (List.range ((n + 49) / 50)).map (fun c =>
+    (List.range 50).filterMap (fun i => let k := c * 50 + i + 1; if k ≤ n then some [Val.int k, Val.int 0] else none))
+  chunks.map (fun rows => Op.auto (.ins "t" rows))
+
+def cycleOps (c : Cycles) (i : Nat) : List Op :=
+  let upd : Stmt := .upd "t" "v" true (.int 1) none
+  let main : List Op :=
+    if c.how = "sess" then [.begin "s1", .exec "s1" upd, .commit "s1"]
+    else if c.how = "batch" then
+      let half : Int := c.rows / 2
+      [.batch [.upd "t" "v" true (.int 1) (some ⟨"k", .le, .int half⟩), .upd "t" "v" true (.int 1) (some ⟨"k", .gt, .int half⟩)]]
+    else [.auto upd]
+  if c.how = "rbk" then main ++ [.begin "s1", .exec "s1" (.ins "t" [[.int (100000 + i), .int 7]]), .rollback "s1"] else main
+
+def stepAll (D : Defects) (V : VDefects) (τ : VState) (ops : List Op) : VState × Bool :=
+  ops.foldl (fun (acc : VState × Bool) o =>
+    let r := vstep D V acc.1 (.op o)
+    (r.1, acc.2 && (match r.2 with | .out x => !isFailure x | .dead _ => false))) (τ, true)
+
+def runCycles (D : Defects) (V : VDefects) (c : Cycles) : String :=
+  let τ0 := (stepAll D V (VState.init catCycles) ([Op.tick] ++ insertBatches c.rows)).1
+  let rec go (fuel : Nat) (i : Nat) (τ : VState) (sizes : List Nat) : Option (VState × List Nat) :=
+    match fuel with
+    | 0 => some (τ, sizes.reverse)
+    | fuel + 1 =>
+      let (τ1, ok) := stepAll D V τ (cycleOps c i)
+      if !ok then none
+      else
+        let τ2 := (vstep D V τ1 .vacuum).1
+        let τ3 := if c.reopen > 0 && i % c.reopen == 0 then (vstep D V τ2 .reopen).1 else τ2
+        go fuel (i + 1) τ3 (τ2.db.size :: sizes)
+  match go c.cycles 1 τ0 [] with
+  | none => "cycle-failed"
+  | some (τ, sizes) =>
+    let r := vstep D V τ (.op (.auto (.sel "t" none)))
+    let content := match r.2 with
+      | .out (.stmt (.rows rs)) =>
+        let wrong := rs.filter (fun (row : List Val) => row.getD 1 Val.null != Val.int c.cycles)
+        s!"rows={rs.length} wrong={wrong.length}"
+      | _ => "select-failed"
+    let (τp, okp) := stepAll D V r.1 [.auto (.ins "t" [[.int 999999, .int 1]]), .auto (.del "t" (some ⟨"k", .eq, .int 999999⟩))]
+    let _ := τp
+    let probe := if okp then "probe=ok" else "probe-failed"
+    let verdict :=
+      if sizes.length ≥ 10 then
+        let s3 := sizes.getD 2 0
+        let worst := (sizes.drop 9).foldl max 0
+        if worst ≤ s3 then "bounded" else s!"PROPFAIL growth cycle3={s3} max-after-cycle10={worst}"
+      else "bounded"
+    s!"{verdict} {content} {probe} ## sizes={joinWith "," (sizes.map toString)}"
+
+def runLine (flags : List String) (line : String) : String :=
+  let D := parseDefects flags
+  let V := parseV flags
+  if (words line).head? == some "cycles" then
+    match parseCycles line with
+    | none => "bad-op"
+    | some c => runCycles D V c
+  else
+    match parseCase line with
+    | none => "bad-op"
+    | some (st, tmp, ops) =>
+      if hasDup (st.tables.map (·.name)) || st.tables.any (fun t => t.name == "tmpzz" || t.name == "warmupzz") then "bad-setup"
+      else
+        let go (fl : List String) : String := runHist (parseDefects fl) (parseV fl) st tmp ops
+        let out := go flags
+        let known := defectNames ++ vNames
+        let fired := (flags.filter known.contains).filter (fun f => go (flags.filter (· != f)) != out)
+        if fired.isEmpty then out else out ++ " ## fired=" ++ joinWith "," fired
+
+end AxVerif.Db.VDrv
+
 namespace AxVerif.Drivers
 
-def vacuum (_flags : List String) (_line : String) : String := "unimplemented"
+def vacuum (flags : List String) (line : String) : String := AxVerif.Db.VDrv.runLine flags line
 
 end AxVerif.Drivers
